@@ -198,6 +198,7 @@ func (x *fnExec) calleeName(call *ssa.CallCommon) string {
 }
 
 func ifaceKey(t types.Type, method string) string {
+	t = types.Unalias(t)
 	if n, ok := t.(*types.Named); ok {
 		if n.Obj().Pkg() != nil {
 			return n.Obj().Pkg().Name() + "." + n.Obj().Name() + "." + method
@@ -338,6 +339,9 @@ func (x *fnExec) typeFacts(st *State, t Term, allocBound bool) {
 		if allocBound {
 			st.assume("(< " + t.S + " " + st.heapGet(x.v, "$alloc", sInt) + ")")
 		}
+		if f := x.v.rtypeFact(t); f != "" {
+			st.assume(f)
+		}
 	case *types.Basic:
 		switch u.Kind() {
 		case types.Uint8:
@@ -355,7 +359,7 @@ func (x *fnExec) typeFacts(st *State, t Term, allocBound bool) {
 func (x *fnExec) assumeRequires(st *State) {
 	c := x.ctx(st)
 	for _, r := range x.c.Requires {
-		t, err := c.Eval(r.E)
+		t, err := x.evalIn(st, c, r.E)
 		if err != nil {
 			fail("%s: requires %s: %v", x.fnName(), r.Label, err)
 		}
@@ -381,8 +385,24 @@ func (x *fnExec) emitFixed(name, kind string, cl *Clause, goal, clause string) {
 	x.v.obls = append(x.v.obls, o)
 }
 
+// evalIn evaluates a contract expression and assumes the heap-closedness side facts it relies on.
+func (x *fnExec) evalIn(st *State, c *EvalCtx, e Expr) (Term, error) {
+	var facts []string
+	c.facts = &facts
+	t, err := c.Eval(e)
+	c.facts = nil
+	seen := map[string]bool{}
+	for _, f := range facts {
+		if !seen[f] {
+			seen[f] = true
+			st.assume(f)
+		}
+	}
+	return t, err
+}
+
 func (x *fnExec) evalClause(st *State, c *EvalCtx, cl *Clause) string {
-	t, err := c.Eval(cl.E)
+	t, err := x.evalIn(st, c, cl.E)
 	if err != nil {
 		fail("%s: %s %s: %v", x.fnName(), cl.Kind, cl.Label, err)
 	}
@@ -413,10 +433,12 @@ func (x *fnExec) execBlock(st *State, b *ssa.BasicBlock, pred *ssa.BasicBlock) {
 			if st.inLoop[b] {
 				// back edge: preservation
 				x.checkInvariants(st, li, "inv-pres")
+				x.autoFrame(st, li, "inv-pres", false)
 				x.endPath(st)
 				return
 			}
 			x.checkInvariants(st, li, "inv-init")
+			x.autoFrame(st, li, "inv-init", false)
 			x.havocLoop(st, li)
 			st.inLoop[b] = true
 			c := x.ctxLoop(st, li)
@@ -425,6 +447,7 @@ func (x *fnExec) execBlock(st *State, b *ssa.BasicBlock, pred *ssa.BasicBlock) {
 					st.assume(x.evalClause(st, c, inv))
 				}
 			}
+			x.autoFrame(st, li, "", true)
 			start = x.numPhis(b)
 		} else {
 			x.bindPhis(st, b, pred)
@@ -549,6 +572,31 @@ func (x *fnExec) checkInvariants(st *State, li *loopInfo, kind string) {
 	}
 }
 
+// autoFrame: the function's own frame (modifies clause) is an implicit invariant of every loop, for the heap
+// variables the loop may modify. It is checked like a written invariant and assumed after the havoc.
+func (x *fnExec) autoFrame(st *State, li *loopInfo, kind string, assume bool) {
+	mods, all := x.loopModifies(li)
+	if all {
+		return
+	}
+	fs := x.frameSpecOf(st)
+	if fs.all {
+		return
+	}
+	for _, name := range mods {
+		cur := st.heapGet(x.v, name, x.v.heapSorts[name])
+		goal, needed := x.frameGoal(fs, name, cur)
+		if !needed {
+			continue
+		}
+		if assume {
+			st.assume(goal)
+		} else {
+			x.emit(st, fmt.Sprintf("%s.loop%d.autoframe.%s", kind, li.ordinal, name), kind, "autoframe", nil, goal, "implicit frame invariant for "+name)
+		}
+	}
+}
+
 // havocLoop gives fresh values to everything the loop body may modify.
 func (x *fnExec) havocLoop(st *State, li *loopInfo) {
 	v := x.v
@@ -634,10 +682,11 @@ func (x *fnExec) chanHeapVars(et types.Type) []string {
 	es := v.decls.sortOf(et)
 	v.registerHeap("CH_sentn", arrSort(sInt, sInt))
 	v.registerHeap("CH_recvn", arrSort(sInt, sInt))
+	v.registerHeap("CH_recva", arrSort(sInt, sInt))
 	v.registerHeap("CH_closed", arrSort(sInt, sBool))
 	n := "CH_sent_" + mangleSort(es)
 	v.registerHeap(n, arrSort(sInt, arrSort(sInt, es)))
-	return []string{"CH_sentn", "CH_recvn", "CH_closed", n}
+	return []string{"CH_sentn", "CH_recvn", "CH_closed", n, "CH_recva"}
 }
 
 func (x *fnExec) mapHeapVars(mt *types.Map) []string {
@@ -854,7 +903,7 @@ func (x *fnExec) modTargetHeaps(m string, c *FuncContract) ([]string, bool) {
 		v.registerHeap("CH_sentn", arrSort(sInt, sInt))
 		v.registerHeap("CH_recvn", arrSort(sInt, sInt))
 		v.registerHeap("CH_closed", arrSort(sInt, sBool))
-		out = append(out, "CH_sentn", "CH_recvn", "CH_closed")
+		out = append(out, "CH_sentn", "CH_recvn", "CH_closed", "CH_recva")
 		return dedup(out), false
 	}
 	if _, ok := v.cs.GhostVars[m]; ok {
@@ -1243,4 +1292,29 @@ func (x *fnExec) debugRef(st *State, d *ssa.DebugRef) {
 	} else {
 		delete(st.envAddr, id.Name)
 	}
+}
+
+// rtypeFact: a non-nil reference of a static pointer/map/chan type has that dynamic type; references of different
+// types never alias.
+func (v *Verifier) rtypeFact(t Term) string {
+	if t.T == nil {
+		return ""
+	}
+	switch t.T.Underlying().(type) {
+	case *types.Pointer, *types.Map, *types.Chan:
+	default:
+		return ""
+	}
+	key := types.TypeString(types.Unalias(t.T), nil)
+	if u, ok := types.Unalias(t.T).(*types.Named); ok {
+		// named map/chan types: use the underlying type (conversions between them keep the object)
+		key = types.TypeString(u.Underlying(), nil)
+	}
+	id, ok := v.rtypeIDs[key]
+	if !ok {
+		id = len(v.rtypeIDs) + 1
+		v.rtypeIDs[key] = id
+	}
+	v.decls.add("fun:rtype", "(declare-fun rtype (Int) Int)")
+	return "(=> (not (= " + t.S + " 0)) (= (rtype " + t.S + ") " + fmt.Sprint(id) + "))"
 }
